@@ -306,24 +306,27 @@ theorem toplevel_names_kept (c : Cfg) (ν : Naming) (keep : Bool) (t : Tree)
   apply unrenamed_kept c _ ν hnd
   simp [Tree.withFlags, Tree.toForest, unrenamedDecls, hv]
 
-/-- the call sites of `renameScope` in `/repo/js` (regenerated): block, `for`, `for-in`, `for-of`, `switch`,
+/-- the call sites of `renameScope` in `/repo/js` (regenerated; local names are canonicalised by the translator so that
+    renaming a receiver, parameter or local variable does not change the transcript: `recv` = receiver, `arg0` = first
+    parameter, `sw` = variable of the type switch, `as(T)` = result of a type assertion, `f#0` = first result of the call
+    `f(…)`, `let(e)` = variable initialised with `e`, `each(e)` = range value over `e`): block, `for`, `for-in`, `for-of`, `switch`,
     `try` body / `catch` / `finally`, statement-or-block bodies, function declarations and expressions, methods,
     arrow functions, class static blocks (since fix 1b16362) — and nothing else -/
 def expectedSites : List (String × String × String) := [
-  ("minifyStmt", "*js.BlockStmt", "stmt.Scope"),
-  ("minifyStmt", "*js.ForStmt", "stmt.Body.Scope"),
-  ("minifyStmt", "*js.ForInStmt", "stmt.Body.Scope"),
-  ("minifyStmt", "*js.ForOfStmt", "stmt.Body.Scope"),
-  ("minifyStmt", "*js.SwitchStmt", "stmt.Scope"),
-  ("minifyStmt", "*js.TryStmt", "stmt.Body.Scope"),
-  ("minifyStmt", "*js.TryStmt", "stmt.Catch.Scope"),
-  ("minifyStmt", "*js.TryStmt", "stmt.Finally.Scope"),
-  ("minifyStmtOrBlock", "-", "blockStmt.Scope"),
-  ("minifyFuncDecl", "-", "decl.Body.Scope"),
-  ("minifyFuncDecl", "-", "decl.Body.Scope"),
-  ("minifyMethodDecl", "-", "decl.Body.Scope"),
-  ("minifyArrowFunc", "-", "decl.Body.Scope"),
-  ("minifyClassDecl", "-", "item.StaticBlock.Scope")]
+  ("minifyStmt", "*js.BlockStmt", "sw.Scope"),
+  ("minifyStmt", "*js.ForStmt", "sw.Body.Scope"),
+  ("minifyStmt", "*js.ForInStmt", "sw.Body.Scope"),
+  ("minifyStmt", "*js.ForOfStmt", "sw.Body.Scope"),
+  ("minifyStmt", "*js.SwitchStmt", "sw.Scope"),
+  ("minifyStmt", "*js.TryStmt", "sw.Body.Scope"),
+  ("minifyStmt", "*js.TryStmt", "sw.Catch.Scope"),
+  ("minifyStmt", "*js.TryStmt", "sw.Finally.Scope"),
+  ("minifyStmtOrBlock", "-", "as(*js.BlockStmt).Scope"),
+  ("minifyFuncDecl", "-", "arg0.Body.Scope"),
+  ("minifyFuncDecl", "-", "arg0.Body.Scope"),
+  ("minifyMethodDecl", "-", "arg0.Body.Scope"),
+  ("minifyArrowFunc", "-", "arg0.Body.Scope"),
+  ("minifyClassDecl", "-", "each(arg0.List).StaticBlock.Scope")]
 
 /-- **public names are kept (structural part).**  The global scope (`ast.Scope` / `ast.BlockStmt.Scope` in
     `Minify`) is never handed to `renameScope`: the regenerated list of call sites is the expected one, none of
@@ -333,10 +336,11 @@ theorem public_names_kept :
     Verif.Gen.RenameSites.sites = expectedSites ∧
     (Verif.Gen.RenameSites.sites.all fun s =>
       s.1 != "Minify" &&
-      ["stmt.Scope", "stmt.Body.Scope", "stmt.Catch.Scope", "stmt.Finally.Scope", "blockStmt.Scope",
-        "decl.Body.Scope", "item.StaticBlock.Scope"].contains s.2.2) = true ∧
+      ["sw.Scope", "sw.Body.Scope", "sw.Catch.Scope", "sw.Finally.Scope", "as(*js.BlockStmt).Scope",
+        "arg0.Body.Scope", "each(arg0.List).StaticBlock.Scope"].contains s.2.2) = true ∧
     Verif.Gen.RenameSites.guardFirst = true ∧
-    Verif.Gen.RenameSites.newRenamerArgs = ["!o.KeepVarNames && !ast.Scope.HasWith", "!o.useAlphabetVarNames"] := by
+    Verif.Gen.RenameSites.newRenamerArgs =
+      ["!recv.KeepVarNames && !js.Parse#0.Scope.HasWith", "!recv.useAlphabetVarNames"] := by
   refine ⟨?_, ?_, ?_, ?_⟩ <;> decide
 
 /-- **every scope is complete when it is renamed.**  `optimizeStmtList` may move lexical declarations into the scope whose
@@ -352,7 +356,7 @@ theorem optimize_before_rename :
     Verif.Gen.RenameSites.siteOrder.length = Verif.Gen.RenameSites.sites.length ∧
     (Verif.Gen.RenameSites.siteOrder.all fun o => o != "after") = true ∧
     ((Verif.Gen.RenameSites.sites.zip Verif.Gen.RenameSites.siteOrder).all fun p =>
-      p.2 == "before" || (p.1.2.1 == "*js.BlockStmt" && p.1.2.2 == "stmt.Scope")) = true := by
+      p.2 == "before" || (p.1.2.1 == "*js.BlockStmt" && p.1.2.2 == "sw.Scope")) = true := by
   refine ⟨?_, ?_, ?_, ?_⟩ <;> decide
 
 /-! ## KeepVarNames and `with` -/
@@ -362,7 +366,7 @@ theorem optimize_before_rename :
 theorem flag_writes :
     (Verif.Gen.RenameSites.flagWrites.all fun w =>
       ["minifyFuncDecl", "minifyMethodDecl", "minifyArrowFunc"].contains w.1 &&
-      (w.2 == "!decl.Body.Scope.HasWith && !m.o.KeepVarNames" || w.2 == "parentRename")) = true ∧
+      (w.2 == "!arg0.Body.Scope.HasWith && !recv.o.KeepVarNames" || w.2 == "let(recv.renamer.rename)")) = true ∧
     Verif.Gen.RenameSites.flagWrites.length = 6 := by
   refine ⟨?_, ?_⟩ <;> decide
 
